@@ -47,21 +47,29 @@ func pow10s(from, to int, extra ...string) []string {
 	return append(out, extra...)
 }
 
+// allSeries lists every series of the tier. Strict mode only changes how an ASCII item body is
+// read, so the quick tier runs the strict variant only where an <A item is involved; the
+// thorough tier runs everything in both modes.
 func allSeries(thorough bool) []seriesT {
 	var ss []seriesT
-	modes := []string{"nonstrict", "strict"}
+	modesFor := func(involvesASCII bool) []string {
+		if thorough || involvesASCII {
+			return []string{"nonstrict", "strict"}
+		}
+		return []string{"nonstrict"}
+	}
 	nest := pow10s(1, 6, "4000000")
 	if thorough {
 		nest = pow10s(1, 6, "2000000", "3000000", "4000000")
 	}
 	for _, v := range []string{"open", "closed"} {
-		for _, m := range modes {
+		for _, m := range modesFor(false) {
 			ss = append(ss, seriesT{"nesting", v, m, nest, true})
 		}
 	}
 	unt := []string{"1000", "10000", "100000", "1000000"}
 	for _, v := range []string{"asciiq", "asciinum", "asciiesc", "jis8", "local", "binary", "boolean", "blockcomment", "linecomment", "bodycomment", "streamcode", "msgname", "sizehintdigits"} {
-		for _, m := range modes {
+		for _, m := range modesFor(strings.HasPrefix(v, "ascii")) {
 			ns := unt
 			if v == "asciinum" && m == "strict" {
 				// quadratic allocation (numStr += string(ch)): 5.3 GB at n=10^5; the 10^6 point would
@@ -79,23 +87,27 @@ func allSeries(thorough bool) []seriesT {
 		msgs = append(msgs, "300000")
 	}
 	for _, v := range []string{"noitems", "wnoitems"} {
-		for _, m := range modes {
+		for _, m := range modesFor(false) {
 			ss = append(ss, seriesT{"messages", v, m, msgs, true})
 		}
 	}
 	for _, v := range []string{"list", "array", "ascii", "gt", "msgs"} {
-		for _, m := range modes {
+		for _, m := range modesFor(v == "ascii" || v == "msgs") {
 			ss = append(ss, seriesT{"wide", v, m, unt, true})
 		}
 	}
 	for _, ty := range itemTypes {
-		for _, m := range modes {
+		for _, m := range modesFor(ty == "A") {
 			ss = append(ss, seriesT{"sizehint", ty, m, hintValues, false})
 		}
 	}
+	rangeHints := []string{"2147483647"}
+	if thorough {
+		rangeHints = []string{"16777216", "2147483647"}
+	}
 	for _, ty := range itemTypes {
-		ss = append(ss, seriesT{"sizehint", ty + "/min..max", "nonstrict", []string{"16777216", "2147483647"}, false})
-		ss = append(ss, seriesT{"sizehint", ty + "/..max", "strict", []string{"16777216", "2147483647"}, false})
+		ss = append(ss, seriesT{"sizehint", ty + "/min..max", "nonstrict", rangeHints, false})
+		ss = append(ss, seriesT{"sizehint", ty + "/..max", "strict", rangeHints, false})
 	}
 	return ss
 }
